@@ -149,12 +149,13 @@ def run_cases(ck: core.Check, cases: list[dict]) -> list[dict]:
         return pool.map(eval_case, cases, chunksize=max(1, len(cases) // 240))
 
 
-def run(ck: core.Check):
+def run(ck: core.Check, prove: bool = True):
     from harness import lib_buildalg as L
 
-    ck.lean(["SpoxModel.Props.C04"], audit="SpoxModel.Audit.C04")
-    if ck.thorough:
-        ck.leanchecker(["SpoxModel.Props.C04"])
+    if prove:
+        ck.lean(["SpoxModel.Props.C04"], audit="SpoxModel.Audit.C04")
+        if ck.thorough:
+            ck.leanchecker(["SpoxModel.Props.C04"])
     ck.trusted_base += [
         "hand-written model Model/BuildAlg.lean of spox._build.Builder (tie H: exact correspondence on every run)",
         "onnx.checker's structural rule (modelled by BuildAlg.structOk, compared with the real checker on every built case)",
@@ -271,6 +272,17 @@ def run(ck: core.Check):
 
 
 def replay(ck: core.Check, doc: dict) -> bool:
+    if "case" not in doc:
+        # an `obligation` replay (a correspondence no longer checks, no failing input was found):
+        # re-run the correspondence and the oracle of the recorded seed against the current tree
+        run(ck, prove=False)
+        for b in ck.broken_items:
+            print(f"still broken: {b['kind']}: {b['name']}")
+        for f in ck.failures:
+            print(f"{f['key']}: {f['what']}")
+        if ck._driver:
+            ck._driver.close()
+        return bool(ck.broken_items or ck.failures)
     case = doc["case"]
     r = eval_case(case)
     if "unrealisable" in r:
